@@ -128,6 +128,41 @@ func checkC17(P *Prog, r *Result) {
 	// ---- option-locality ----
 	P.checkOptionLocality(r)
 
+	// ---- params-local: builders and test constructors write test parameters only into maps they made ----
+	nMU := 0
+	for _, fn := range P.Funcs {
+		if strings.Contains(funcPkgPath(fn), "/tutils") || fn.Synthetic != "" {
+			continue
+		}
+		eachInstr(fn, func(_ *ssa.BasicBlock, _ int, in ssa.Instruction) {
+			mu, ok := in.(*ssa.MapUpdate)
+			if !ok {
+				return
+			}
+			_, f := loadOfField(cv(mu.Map))
+			if f == nil || f.Name() != "Params" || !sameNamed(P.fieldOwner(f), R.Test) {
+				return
+			}
+			nMU++
+			c := fmt.Sprintf("%s#Params[%s]", fname(fn), shortName(mu.Key.String()))
+			// the map stored in that Test's Params must be a MakeMap of this function, on every reaching store
+			base, _ := loadOfField(cv(mu.Map))
+			d := &derivCtx{P: P, fn: fn}
+			var pv prov
+			if al, isAl := cv(base).(*ssa.Alloc); isAl && al.Parent() == fn {
+				pv = d.objFieldProv(al, f, in, 0)
+			} else {
+				pv = prov{"shared", "a Test that is not local to this function"}
+			}
+			if pv.kind == "fresh" {
+				r.ok("C17/params-local", c, P.ipos(in), "parameter written into a map made for this test")
+			} else {
+				r.bad("C17/params-local", c, P.ipos(in), "a test parameter is written into a Params map that may not belong to this test ("+pv.desc+"): with z.Params(m) the caller's map — possibly shared with other tests — is modified")
+			}
+		})
+	}
+	r.floor("C17/params-local", 15)
+
 	// ---- setcoercer ----
 	for _, k := range R.Kinds {
 		kn := k.Obj().Name()
